@@ -60,6 +60,14 @@ func init() {
 			}
 			return nil
 		},
+		"ScheduleEager": func(fr *frame, args []value) value {
+			fr.i.w.schedEager = fr.i.w.truth(args[0])
+			return nil
+		},
+		"ScheduleAll": func(fr *frame, args []value) value {
+			fr.i.w.schedAll = fr.i.w.truth(args[0])
+			return nil
+		},
 		"PermuteOneMap": func(fr *frame, args []value) value {
 			// exactly one of the following map iterations gets a non-canonical order
 			fr.i.w.permute = 2
